@@ -205,7 +205,7 @@ Qed.
 
 (* reconstruct_exact at bucket level: after ANY history of adds and removes in a bucket of a table of 2^L buckets, every
    element i reconstructs to the full getter's value or to exactly the known bits of its own hash *)
-Theorem p4_bucket_reconstruct s c hs ps i full bidx newL items : 4 <= H <= 8 -> 0 <= L <= 57 -> 0 <= newL <= 63 ->
+Theorem p4_bucket_reconstruct s c hs ps i full bidx newL items : 4 <= H <= 8 -> 0 <= L <= 63 -> 0 <= newL <= 63 ->
   p4_reach s c hs ps -> 0 <= i < c -> bidx = (hs i mod 2 ^ L + ps i) mod 2 ^ L ->
   Gen_P4.GetHashCodePart H s full bidx L newL items i = full \/
   (Gen_P4.GetHashCodePart H s full bidx L newL items i = known (qof L) (hs i) /\ qof L = qof newL).
